@@ -598,7 +598,6 @@ class Scenario(object):
             self.viol('C15', 'wrong-error-type/%s/%s' % (kind, outcome),
                       'request %r raised %s (%s), documented type is %s'
                       % (op, outcome, str(exc)[:200], sorted(expect - {'ok'})))
-        acc.nontriv('C15', kind, self.state_class())
 
     # -- model update + monitors for accepted requests ------------------------
 
